@@ -407,3 +407,278 @@ def c03_sim(rep: Report, prog: Program, tier: str) -> None:
             rep.ok(RULE, label)
         else:
             rep.fail(mk_finding(prog, "C03", RULE, anchor, None, f"[{label}] " + "; ".join(bad[:2]), construct="nego: " + re.sub(r"\d+", "N", bad[0])[:80]))
+
+
+# ---------------------------------------------------------------------------------------------------------------- C14-SIM
+def graph_clone(sim: PCSim, root: Any) -> Any:
+    """copy of an object graph of the simulation that keeps sharing and cycles; classes, enum members and immutable values are shared"""
+    memo: Dict[int, Any] = {}
+    hook = sim.hook
+
+    def cl(v: Any) -> Any:
+        if v is None or isinstance(v, (str, bytes, int, float, bool, frozenset)) or callable(v) and not isinstance(v, (SimpleNamespace, Stub)):
+            return v
+        i = id(v)
+        if i in memo:
+            return memo[i]
+        if isinstance(v, SimpleNamespace):
+            ci = getattr(v, "__cls__", None)
+            if ci is not None and hook.enum_kind(ci):
+                return v
+            new = type(v)()
+            memo[i] = new
+            for k, x in vars(v).items():
+                setattr(new, k, x if k == "__cls__" else cl(x))
+            return new
+        if isinstance(v, Stub):
+            new = object.__new__(type(v))
+            memo[i] = new
+            for k, x in vars(v).items():
+                new.__dict__[k] = cl(x)
+            return new
+        if isinstance(v, dict):
+            new = {}
+            memo[i] = new
+            for k, x in v.items():
+                new[cl(k)] = cl(x)
+            return new
+        if isinstance(v, list):
+            new = []
+            memo[i] = new
+            new.extend(cl(x) for x in v)
+            return new
+        if isinstance(v, deque):
+            new = deque()
+            memo[i] = new
+            new.extend(cl(x) for x in v)
+            return new
+        if isinstance(v, set):
+            new = set()
+            memo[i] = new
+            new.update(cl(x) for x in v)
+            return new
+        if isinstance(v, tuple):
+            return tuple(cl(x) for x in v)
+        return v            # ClassInfo, ast nodes, bound-method references: shared
+    return cl(root)
+
+
+ACTIONS = ("createOffer", "createAnswer", "setLocal(offer)", "setLocal(answer)", "setLocal(implicit)", "setRemote(offer)", "setRemote(answer)", "setRemote(mismatched answer)",
+           "setRemote(offer without ICE credentials)", "setRemote(offer without rtcp-mux)", "setRemote(answer with a=setup:actpass)", "setRemote(answer without rtcp-mux)", "close")
+SLOTS = ("__currentLocalDescription", "__pendingLocalDescription", "__currentRemoteDescription", "__pendingRemoteDescription")
+
+
+def model(state: str, action: str) -> Tuple[Optional[str], str]:
+    """JSEP table: (exception the call must raise or None, state afterwards)"""
+    if action == "close":
+        return None, "closed"
+    if state == "closed":
+        return "InvalidStateError", state
+    if action == "createOffer":
+        return None, state
+    if action == "createAnswer":
+        return (None, state) if state == "have-remote-offer" else ("InvalidStateError", state)
+    if action == "setLocal(offer)":
+        return (None, "have-local-offer") if state in ("stable", "have-local-offer") else ("InvalidStateError", state)
+    if action == "setLocal(answer)":
+        return (None, "stable") if state == "have-remote-offer" else ("InvalidStateError", state)
+    if action == "setLocal(implicit)":
+        return (None, "stable") if state == "have-remote-offer" else (None, "have-local-offer")
+    if action == "setRemote(offer)":
+        return (None, "have-remote-offer") if state in ("stable", "have-remote-offer") else ("InvalidStateError", state)
+    if action == "setRemote(answer)":
+        return (None, "stable") if state == "have-local-offer" else ("InvalidStateError", state)
+    if action.startswith("setRemote(offer without"):
+        return ("ValueError", state) if state in ("stable", "have-remote-offer") else ("InvalidStateError", state)
+    # defective / mismatched answers
+    return ("ValueError", state) if state == "have-local-offer" else ("InvalidStateError", state)
+
+
+class Subject:
+    """one connection under test plus what the application holds (the last offer / answer it created)"""
+
+    def __init__(self, sim: PCSim, pc: Any, texts: Dict[str, str]) -> None:
+        self.sim, self.pc, self.texts = sim, pc, texts
+        self.last_offer: Any = None
+        self.last_answer: Any = None
+
+    def fork(self) -> "Subject":
+        s = Subject(self.sim, graph_clone(self.sim, self.pc), self.texts)
+        s.last_offer, s.last_answer = self.last_offer, self.last_answer
+        return s
+
+    def state(self) -> str:
+        return self.sim.get(self.pc, "signalingState")
+
+    def slots(self) -> tuple:
+        return tuple(getattr(self.pc, s, None) for s in SLOTS)
+
+    def answer_for_pending(self) -> str:
+        pend = getattr(self.pc, "__pendingLocalDescription", None)
+        return self.texts["answer"] if pend is None else answer_to(self.sim, self.sim.hook.to_str(pend) if not isinstance(pend, str) else pend, self.texts)
+
+    def do(self, action: str) -> Any:
+        sim, pc = self.sim, self.pc
+        if action == "createOffer":
+            self.last_offer = sim.call(pc, "createOffer")
+        elif action == "createAnswer":
+            self.last_answer = sim.call(pc, "createAnswer")
+        elif action == "setLocal(offer)":
+            # an application only passes offers / answers this connection created: where creating one is legal it is created first, elsewhere a stand-in text is used
+            if self.last_offer is None and self.state() in ("stable", "have-local-offer"):
+                self.last_offer = sim.call(pc, "createOffer")
+            d = self.last_offer if self.last_offer is not None else sim.desc("offer", self.texts["own-offer"])
+            sim.call(pc, "setLocalDescription", d)
+        elif action == "setLocal(answer)":
+            if self.state() == "have-remote-offer":
+                self.last_answer = sim.call(pc, "createAnswer")
+            d = self.last_answer if self.last_answer is not None else sim.desc("answer", self.texts["own-answer"])
+            sim.call(pc, "setLocalDescription", d)
+        elif action == "setLocal(implicit)":
+            sim.call(pc, "setLocalDescription", None)
+        elif action == "setRemote(offer)":
+            sim.call(pc, "setRemoteDescription", sim.desc("offer", self.texts["offer"]))
+        elif action == "setRemote(answer)":
+            sim.call(pc, "setRemoteDescription", sim.desc("answer", self.answer_for_pending()))
+        elif action == "setRemote(mismatched answer)":
+            t = self.answer_for_pending()
+            sim.call(pc, "setRemoteDescription", sim.desc("answer", drop_last_section(t)))
+        elif action == "setRemote(offer without ICE credentials)":
+            sim.call(pc, "setRemoteDescription", sim.desc("offer", "".join(l for l in self.texts["offer"].splitlines(True) if not l.startswith(("a=ice-ufrag", "a=ice-pwd")))))
+        elif action == "setRemote(offer without rtcp-mux)":
+            sim.call(pc, "setRemoteDescription", sim.desc("offer", "".join(l for l in self.texts["offer"].splitlines(True) if l.strip() != "a=rtcp-mux")))
+        elif action == "setRemote(answer with a=setup:actpass)":
+            sim.call(pc, "setRemoteDescription", sim.desc("answer", re.sub(r"a=setup:\w+", "a=setup:actpass", self.answer_for_pending())))
+        elif action == "setRemote(answer without rtcp-mux)":
+            sim.call(pc, "setRemoteDescription", sim.desc("answer", "".join(l for l in self.answer_for_pending().splitlines(True) if l.strip() != "a=rtcp-mux")))
+        elif action == "close":
+            sim.call(pc, "close")
+        else:
+            raise AnalysisError(f"pcnego: unknown action {action}")
+
+
+def drop_last_section(text: str) -> str:
+    lines = text.splitlines(True)
+    idx = [i for i, l in enumerate(lines) if l.startswith("m=")]
+    if len(idx) < 2:
+        return text
+    kept = lines[:idx[-1]]
+    gone = next((l[6:].strip() for l in lines[idx[-1]:] if l.startswith("a=mid:")), None)
+    return "".join(re.sub(rf"(a=group:BUNDLE.*?) {re.escape(gone)}\b", r"\1", l) if gone and l.startswith("a=group:BUNDLE") else l for l in kept)
+
+
+_ANSWERS: Dict[str, str] = {}
+
+
+def configure(sim: PCSim, s: Side) -> None:
+    s.add("tx", "audio", "sendrecv")
+    sim.call(s.pc, "createDataChannel", "chat")
+
+
+def answer_to(sim: PCSim, offer_text: str, texts: Dict[str, str]) -> str:
+    """what a well-behaved peer answers to this offer (a fresh helper connection with the same set-up)"""
+    key = re.sub(r"a=(ice-ufrag|ice-pwd|fingerprint|msid|ssrc)[^\n]*\n", "", re.sub(r"o=[^\n]*\n", "", offer_text))
+    if key not in _ANSWERS:
+        h = Side(sim, "balanced")
+        configure(sim, h)
+        sim.call(h.pc, "setRemoteDescription", sim.desc("offer", offer_text))
+        _ANSWERS[key] = sim.call(h.pc, "createAnswer").sdp
+    return _ANSWERS[key]
+
+
+def explore(prog: Program, first: str, depth: int) -> List[Tuple[str, str, str]]:
+    """all sequences starting with `first`; returns (kind, label, detail)"""
+    sim = PCSim(prog)
+    out: List[Tuple[str, str, str]] = []
+    try:
+        peer = Side(sim, "balanced")
+        configure(sim, peer)
+        peer_offer = sim.call(peer.pc, "createOffer").sdp
+        me = Side(sim, "balanced")
+        configure(sim, me)
+        # descriptions of the subject's own making, for calls that need one before the subject created any
+        twin = Side(sim, "balanced")
+        configure(sim, twin)
+        own_offer = sim.call(twin.pc, "createOffer").sdp
+        texts = {"offer": peer_offer, "own-offer": own_offer}
+        texts["answer"] = answer_to(sim, own_offer, texts)
+        texts["own-answer"] = texts["answer"]
+        root = Subject(sim, me.pc, texts)
+    except (Raised, Unknown) as ex:
+        return [("unknown", f"set-up for sequences starting with {first}", str(ex))]
+
+    def step(sub: Subject, action: str, prefix: Tuple[str, ...], remaining: int) -> None:
+        seq = prefix + (action,)
+        label = " ; ".join(seq)
+        before_state, before_slots = sub.state(), sub.slots()
+        want_exc, want_state = model(before_state, action)
+        got_exc = None
+        try:
+            sub.do(action)
+        except Raised as ex:
+            got_exc = ex.name
+        except Unknown as ex:
+            out.append(("unknown", label, str(ex)))
+            return
+        after_state, after_slots = sub.state(), sub.slots()
+        problems = []
+        if got_exc != want_exc:
+            problems.append(f"in state {before_state} the call {'returns normally' if got_exc is None else 'raises ' + got_exc}; JSEP says {'it succeeds' if want_exc is None else want_exc}")
+        if after_state != want_state and not (got_exc != want_exc and got_exc is not None and after_state == before_state):
+            problems.append(f"signalingState goes {before_state} -> {after_state}; JSEP says {want_state}")
+        if (got_exc is not None or want_exc is not None) and any(a is not b for a, b in zip(before_slots, after_slots)):
+            changed = [SLOTS[i].strip("_") for i, (a, b) in enumerate(zip(before_slots, after_slots)) if a is not b]
+            problems.append(f"the refused call changed {', '.join(changed)}")
+        if got_exc is None and want_exc is None and not problems and action.startswith("set"):
+            # what the application sees afterwards: the description just applied
+            side = "localDescription" if action.startswith("setLocal") else "remoteDescription"
+            typ = "answer" if want_state == "stable" else "offer"
+            try:
+                seen_d = sim.get(sub.pc, side)
+            except (Raised, Unknown) as ex:
+                seen_d = None
+                problems.append(f"reading {side} afterwards fails: {ex}")
+            if seen_d is not None and getattr(seen_d, "type", None) != typ:
+                problems.append(f"{side} afterwards is {'None' if seen_d is None else 'of type ' + str(getattr(seen_d, 'type', None))}; the {typ} just applied is expected")
+            elif seen_d is None and not problems:
+                problems.append(f"{side} is None after the call succeeded")
+        if problems:
+            out.append(("fail", label, "; ".join(problems)))
+            return
+        out.append(("ok", label, f"{before_state} -> {after_state}" + (f" ({got_exc})" if got_exc else "")))
+        if remaining <= 0 or got_exc is not None:
+            return          # a refused call left state and descriptions as they were (just checked): its continuations are those of the prefix
+        for nxt in ACTIONS:
+            if after_state == "closed" and remaining < 1:
+                continue
+            step(sub.fork(), nxt, seq, remaining - 1)
+    step(root, first, (), depth - 1)
+    return out
+
+
+_C14: Dict[Tuple[int, str], list] = {}
+
+
+def c14_sim(rep: Report, prog: Program, tier: str) -> None:
+    RULE = "C14-SIM"
+    depth = 3 if tier == "quick" else 4
+    rep.rule(RULE, f"call sequences up to length {depth} through the real negotiation methods (interpreted) against the JSEP table; refused calls leave state and descriptions untouched",
+             min_instances=150)
+    anchor = prog.func(PC + ".__validate_description")
+    key = (id(prog), tier)
+    if key not in _C14:
+        res = pmap(lambda a: explore(prog, a, depth), list(ACTIONS))
+        _C14[key] = [x for r in res for x in r]
+    seen = set()
+    for kind, label, detail in _C14[key]:
+        if kind == "unknown":
+            raise AnalysisError(f"{RULE} cannot evaluate [{label}]: {detail}")
+        if kind == "ok":
+            rep.ok(RULE, label, sample=detail)
+        else:
+            last = label.split(" ; ")[-1]
+            c = f"sequence: {last}: " + re.sub(r"\d+", "N", detail)[:90]
+            if c in seen:
+                continue        # the same misbehaviour after a different prefix
+            seen.add(c)
+            rep.fail(mk_finding(prog, "C14", RULE, anchor, None, f"[{label}] {detail}", construct=c))
